@@ -1,84 +1,52 @@
 """C01 - federated execution returns what a single server would return.
 
 Spec: spec/GQL.tla (Ref = the GraphQL execution algorithm over the union of the data; Norm = the
-tolerated pruning), spec/FederationAbs.tla (Respond is enabled only with Norm(data) = Norm(Ref) and
+tolerated pruning), spec/FederationAbs.tla (Respond is allowed only with Norm(data) = Norm(Ref) and
 no errors), spec/FederationTrace.tla.  The real gateway (NewGateway, real merger / planner /
-executor / MultiOpQueryer) runs over fake services that evaluate what they receive; TLC recomputes
-Ref for every recorded (world, operation) and accepts or rejects the recorded response.
-R7: the harness's own evaluator on the merged world is compared with Ref on every case.
+executor / MultiOpQueryer, six configurations) runs over fake services that evaluate what they
+receive; TLC recomputes Ref for every recorded (world, operation) and accepts or refuses the
+recorded response.  R7: the harness's own evaluator on the merged world is compared with Ref on
+every case.
 """
-import json
-import time
-
-from checks import fedlib
-import vlib
-from vlib import log
+from checks import fedcheck
 
 PID = "C01"
-CFGS = "default,sanitize,idhint,cached,batch1,batch2"
 
 
-def describe(stratum, r, idx, ev, payload):
-    a, b = fedlib.op_bounds(r, idx)
-    req = r["events"][a]
-    exp = fedlib.expected_from_payload(payload)
-    sym = fedlib.symptom(ev, exp) if ev["ev"] == "Resp" else "rejected-" + ev["ev"]
-    sig = "%s/%s" % (fedlib.case_prefix(r, req), sym)
-    obs = fedlib.norm(fedlib.untag(ev["data"])) if ev["ev"] == "Resp" else None
-    what = "config %s, operation:\n%s\nvariables %s\nerrors %s\nfirst difference %s" % (
-        req.get("cfg"), req["text"], json.dumps(req["op"]["vars"]), ev.get("errors"),
-        fedlib.first_diff(exp, obs) if exp is not None and obs is not None else None)
-    case = {"stratum": stratum, "world": r["reset"], "request": req, "events": r["events"][a:b + 1], "expected": exp, "observed": obs}
-    return sig, what, case
+def _corrupt_scalar(runs):
+    for r in runs:
+        for e in r["events"]:
+            if e["ev"] == "Resp" and e["data"].get("t") == "m" and e["data"]["v"]:
+                k = sorted(e["data"]["v"])[0]
+                e["data"]["v"][k] = {"t": "s", "v": "corrupted-by-negative-control"}
+                return True
+    return False
+
+
+def _leak_helper(runs):
+    for r in runs:
+        for e in r["events"]:
+            if e["ev"] == "Resp" and e["data"].get("t") == "m":
+                e["data"]["v"]["__typename"] = {"t": "s", "v": "Query"}
+                return True
+    return False
+
+
+def _add_error(runs):
+    for r in runs:
+        for e in r["events"]:
+            if e["ev"] == "Resp":
+                e["errors"] = ["injected"]
+                return True
+    return False
 
 
 def run(sc, tier, replay):
-    t0 = time.time()
-    V = vlib.Verdicts(PID)
-    thorough = tier == "thorough"
-    binary = vlib.go_build(sc, "./cmd/fed", "fed")
-    open(sc.path("x"), "w").close()
-    import os
-    import shutil
-    # trace config for this property
-    with open(os.path.join(vlib.SPEC, "fed.cfg.tmp"), "w") as f:
-        f.write(fedlib.cfg_text(["C01"]))
-    os.replace(os.path.join(vlib.SPEC, "fed.cfg.tmp"), os.path.join(vlib.SPEC, "fed.cfg"))
-    try:
-        stats, rejections, other, samples = fedlib.run_strata(sc, binary, ["C01"], 6000 if thorough else 420, 25 if thorough else 12, cfgs_core=CFGS, pinned_prefix=PID)
-    finally:
-        try:
-            os.remove(os.path.join(vlib.SPEC, "fed.cfg"))
-        except OSError:
-            pass
-    for o in other:
-        if o["ev"] == "HarnessError":
-            raise vlib.MachineryError("harness: %s" % o["what"])
-        if o["ev"] == "StartFailed":
-            raise vlib.MachineryError("a generated world did not start (the generator must only produce mergeable sets; conflicts are C05): %s" % o["err"])
-    for stratum, r, idx, ev, payload in rejections:
-        sig, what, case = describe(stratum, r, idx, ev, payload)
-        V.violation(sig, what, case)
-    for k, v in stats.items():
-        log("stratum %-13s worlds %5d ops %6d rejected %3d" % (k, v["worlds"], v["ops"], v["rejected"]))
-    rc = V.finish()
-    total_ops = sum(v["ops"] for v in stats.values())
-    vlib.write_evidence(PID, tier, "model_checking", {
-        "states": sum(v["tlc"]["states"] for v in stats.values()),
-        "transitions": sum(v["tlc"]["states"] for v in stats.values()),
-        "traces_validated_against_impl": total_ops,
-        "samples": samples,
-        "strata": stats,
-        "configurations": CFGS.split(","),
-        "evaluations": total_ops,
-        "distinct_nontrivial": sum(v["nontrivial"] for v in stats.values()),
-        "rule": "seeded generator of (service schemas x entity graph x operation); every case is an (operation, gateway configuration) pair run through the real gateway; "
-                "non-trivial = the observed plan involves >= 2 services and >= 3 (service, level) pairs, i.e. at least one stitched child step",
-        "known_findings_hit": sorted(V.hit_known), "notes": V.notes, "repo_head": vlib.repo_head(),
-    }, time.time() - t0, violations=len(V.violations), assumptions=[
-        "services are consistent: each resolves node(id:) for every entity of the Node types it declares and agrees on id; data conforms to declared nullability; mutations are pure echoes",
-        "generated service sets merge successfully (conflicting sets belong to C05)",
-        "scalars are String/Int/Boolean/ID over a small alphabet; custom scalars and directives other than @skip/@include are not generated",
-        "schemas reach the gateway through an SDL-loading introspector (introspection fidelity is C15)",
-    ])
-    return rc
+    return fedcheck.run_fed_check(
+        sc, tier, PID, ["C01"], "model_checking",
+        {"quick": (420, 12), "thorough": (6000, 25)},
+        [("wrong-value", _corrupt_scalar), ("helper-leaks", _leak_helper), ("errors-not-empty", _add_error)],
+        ["services are consistent: each resolves node(id:) for every entity of the Node types it declares and agrees on id; data conforms to declared nullability; mutations are pure echoes",
+         "generated service sets merge successfully (conflicting sets belong to C05)",
+         "scalars are String/Int/Boolean/ID over a small alphabet; custom scalars and directives other than @skip/@include are not generated",
+         "schemas reach the gateway through an SDL-loading introspector (introspection fidelity is C15)"])
